@@ -3,9 +3,11 @@ package main
 import (
 	"database/sql"
 	"database/sql/driver"
+	"encoding/hex"
 	"encoding/json"
 	"errors"
 	"fmt"
+	"net"
 	"reflect"
 	"time"
 
@@ -169,6 +171,47 @@ type TTagged struct {
 	Ji *int8  `sql:",json"`
 }
 
+// Blob is a named byte slice with encoding.BinaryMarshaler / BinaryUnmarshaler (used with the binary tag):
+// the stored form is not the raw bytes.
+type Blob []byte
+
+func (b Blob) MarshalBinary() ([]byte, error) { return append([]byte{0xB1}, b...), nil }
+func (b *Blob) UnmarshalBinary(d []byte) error {
+	if len(d) == 0 || d[0] != 0xB1 {
+		return errors.New("Blob: bad prefix")
+	}
+	*b = append(Blob{}, d[1:]...)
+	return nil
+}
+
+// Token is a named byte slice with encoding.TextMarshaler / TextUnmarshaler (used with the string tag).
+type Token []byte
+
+func (t Token) MarshalText() ([]byte, error) { return []byte("tok-" + hex.EncodeToString(t)), nil }
+func (t *Token) UnmarshalText(d []byte) error {
+	if len(d) < 4 || string(d[:4]) != "tok-" {
+		return errors.New("Token: bad prefix")
+	}
+	b, err := hex.DecodeString(string(d[4:]))
+	*t = Token(b)
+	if b == nil {
+		*t = Token{}
+	}
+	return err
+}
+
+// TNamedBytes: named byte-slice types that are not their own sql.Scanner, read back through their tags.
+type TNamedBytes struct {
+	Id  int64   `sql:",primary"`
+	Ip  net.IP  `sql:",string"`
+	Ipp *net.IP `sql:",string"`
+	Bl  Blob    `sql:",binary"`
+	Blp *Blob   `sql:",binary"`
+	Tk  Token   `sql:",string"`
+	Tkp *Token  `sql:",string"`
+	Raw []byte
+}
+
 type hidden struct{ X int }
 
 // TGaps: fields that are not columns - an unexported embedded struct, unexported fields, `sql:"-"` fields -
@@ -253,7 +296,7 @@ type tableInfo struct {
 var catalogue = []tableInfo{
 	{"ints", TInts{}, nil}, {"uints", TUints{}, nil}, {"floats", TFloats{}, nil}, {"text", TText{}, nil},
 	{"times", TTime{}, nil}, {"implicit", TImplicit{}, nil}, {"tagged", TTagged{}, nil}, {"mixed", TMixed{}, nil},
-	{"gaps", TGaps{}, nil}, {"self", TSelf{}, nil}, {"self2", TSelf2{}, nil}, {"jsonwide", TJsonWide{}, nil}, {"jsonodd", TJsonOdd{}, nil},
+	{"gaps", TGaps{}, nil}, {"namedbytes", TNamedBytes{}, nil}, {"self", TSelf{}, nil}, {"self2", TSelf2{}, nil}, {"jsonwide", TJsonWide{}, nil}, {"jsonodd", TJsonOdd{}, nil},
 }
 
 // TSelf2 doubles the weight of the self-scanning types in the catalogue (plain copies of the columns).
@@ -266,7 +309,7 @@ type TSelf2 struct {
 }
 
 // oracleOnly tables are run and judged but not compared with the model.
-var oracleOnly = map[string]bool{"jsonwide": true, "jsonodd": true}
+var oracleOnly = map[string]bool{"jsonwide": true, "jsonodd": true, "namedbytes": true}
 
 func newSchema() *sqlgen.Schema {
 	s := sqlgen.NewSchema()
@@ -286,4 +329,7 @@ var (
 	cuuidType   = reflect.TypeOf(CUuid{})
 	nullStrType = reflect.TypeOf(sql.NullString{})
 	rawMsgType  = reflect.TypeOf(json.RawMessage(nil))
+	ipType      = reflect.TypeOf(net.IP(nil))
+	blobType    = reflect.TypeOf(Blob(nil))
+	tokenType   = reflect.TypeOf(Token(nil))
 )
